@@ -140,9 +140,10 @@ Definition ekind_code (k : ekind) : N :=
   match k with EUnterminated => 0 | EEmptyStatement => 1 | EMissingFunction => 2 | EFunc c => 3 + c end.
 (* None: Compile or BuildKey panicked; output with optimisation, output without, errors *)
 Definition obs := option (str * str * list (N * N)).
+Definition codes (es : list cerr) : list (N * N) := map (fun e => (ekind_code (fst e), snd e)) es.
 Definition obs_of (r : result (tmpl * list cerr)) : obs :=
   match r with
-  | Ok (t, es) => Some (eval t, eval t, map (fun e => (ekind_code (fst e), snd e)) es)
+  | Ok (t, es) => Some (eval t, eval t, codes es)
   | Panic => None
   end.
 Definition str_eqb : str -> str -> bool := list_eqb N.eqb.
@@ -154,6 +155,33 @@ Definition obs_eqb (a b : obs) : bool :=
   | _, _ => false
   end.
 
+(* ---- text both tokenisers copy verbatim (used by the nested-error clause) ------------------ *)
+(* x keeps the brace depth at or above its starting level, ends k levels lower, has no backslash *)
+Fixpoint okO (k : nat) (x : str) : bool :=
+  match x with
+  | [] => (k =? 0)%nat
+  | c :: r =>
+      if c =? 92 then false
+      else if c =? 123 then okO (S k) r
+      else if c =? 125 then match k with O => false | S k' => okO k' r end
+      else okO k r
+  end.
+
+(* x is copied verbatim by the splitter from (depth D + k, quoted q) and leaves it at (D, unquoted) *)
+Fixpoint okS (k : nat) (q : bool) (x : str) : bool :=
+  match x with
+  | [] => (k =? 0)%nat && negb q
+  | c :: r =>
+      if c =? 92 then false
+      else if c =? 34 then match k with O => false | S _ => okS k (negb q) r end
+      else if q then okS k q r
+      else if c =? 123 then okS (S k) q r
+      else if c =? 125 then match k with O => false | S k' => okS k' q r end
+      else if is_space c then match k with O => false | S _ => okS k q r end
+      else okS k q r
+  end.
+
+
 (* ---- boolean forms of the property on an observed output ---------------------------------- *)
 (* what a case claims about its template [s] *)
 Inductive claim :=
@@ -163,7 +191,9 @@ Inductive claim :=
 | KEmpty (c : ctmpl) (w : str) (c' : ctmpl)     (* s = print c {w} print c', w white space *)
 | KUnterm (c : ctmpl) (q : str)                 (* s = print c { q, q never closes that brace *)
 | KMissing (c : ctmpl) (call : cpiece) (c' : ctmpl)   (* s = print c call print c', head of call unknown *)
-| KNested (c : ctmpl) (f lit w : str).          (* s = print c {f lit{w}}: error inside an argument *)
+| KNested (c : ctmpl) (f lit w : str)           (* s = print c {f lit{w}}: error inside an argument *)
+| KArg (c : ctmpl) (f x : str).                 (* s = print c {f x}, x any text copied verbatim: the
+                                                   errors are those of x alone, re-based (C09_err_rebase) *)
 
 (* q has no backslash and never closes the statement it is in (k: braces opened inside q so far) *)
 Fixpoint stays_open (k : nat) (q : str) : bool :=
@@ -202,6 +232,9 @@ Definition claim_static (k : claim) (s : str) : bool :=
   | KNested c f lit w =>
       wf2 c && is_plain_probe f && safe_str lit && nospace lit && ws w
       && str_eqb (print c ++ 123 :: f ++ 32 :: (lit ++ 123 :: w ++ [125]) ++ [125]) s
+  | KArg c f x =>
+      wf2 c && is_plain_probe f && okO 0 x && okS 0 false x && nonempty x
+      && str_eqb (print c ++ 123 :: f ++ 32 :: x ++ [125]) s
   end.
 
 (* what the property then says about output and compile errors (kind code, offset) *)
@@ -219,6 +252,11 @@ Definition claim_expect (k : claim) : option (str * list (N * N)) :=
       end
   | KNested c f lit w =>
       Some (eval (erase c) ++ f ++ 40 :: lit ++ [41], [(1, olen lit + olen (print c))])
+  | KArg c f x =>
+      match compile probe_fs x with
+      | Ok (tx, ex) => Some (eval (erase c) ++ f ++ 40 :: eval tx ++ [41], codes (rebase (olen (print c)) ex))
+      | Panic => None
+      end
   end.
 
 Definition C09_check (k : claim) (s : str) (o : obs) : bool :=
